@@ -18,7 +18,8 @@
    repaired code and every clause is now proved at full strength, without the former premises. *)
 From Sdns Require Import Common.Base Gen.C19 C19.Model
   C19.Proofs_arith C19.Proofs_policy C19.Proofs_edns C19.Proofs_cache C19.Proofs_tree
-  Common.GoList C19.WireOpt C19.Proofs_wire C19.WireReq C19.Proofs_wirereq C19.WirePacket C19.Proofs_wirepacket.
+  Common.GoList C19.WireOpt C19.Proofs_wire C19.WireReq C19.Proofs_wirereq C19.WirePacket C19.Proofs_wirepacket
+  C19.Exit C19.Proofs_exit.
 From Sdns Require C05.Model.
 Open Scope N_scope.
 
@@ -512,3 +513,67 @@ Example tree_examples :
   tree_perms None (mk_dctx false false) plain = [mk_dperm true true true; mk_dperm true true true] /\
   tree_perms None (mk_dctx false false) cdroot = [mk_dperm false false false; mk_dperm false false false].
 Proof. vm_compute. split; reflexivity. Qed.
+
+(* ---------------------------------------------------------------- the exit in forwarder mode *)
+(* WHERE QUERIES LEAVE THE PROCESS.  For every configuration (valid, invalid, none), client address,
+   additional section of the client's query (any number of OPT records, any options), CD / DNSSEC
+   setting and every behaviour of the configured upstreams (SERVFAIL, responses to another question,
+   truncation with the TCP retry, in any combination): each query that goes onto the wire — to whichever
+   upstream, over whichever transport, first attempt or fail-over — carries exactly one OPT record;
+   every option in it is the clamp of a subnet option the client sent, for an eligible client; there is
+   at most one; none for an ineligible client, none when the client sent no subnet option, none under
+   an invalid configuration. *)
+Theorem only_the_clamped_subnet_leaves_through_the_forwarder : forall b remote dnssec cd extra ups q,
+  In q (exit_forwarder b remote dnssec cd extra ups) ->
+  let client := addr_from_slice_unmap remote in
+  let out := all_options (wq_extra q) in
+  count_opt (wq_extra q) = 1%nat /\
+  (forall o, In o out -> exists e, o = OEcs e /\ allows (policy_of b) client = true /\
+                                   exists cs, In (OEcs cs) (all_options extra) /\ clamp (policy_of b) (Some cs) = Some e) /\
+  (length out <= 1)%nat /\
+  (allows (policy_of b) client = false -> out = []) /\
+  (has_ecs (all_options extra) = false -> out = []) /\
+  (build_valid b = false -> out = []).
+Proof. exact exit_forwarder_private. Qed.
+Print Assumptions only_the_clamped_subnet_leaves_through_the_forwarder.
+
+(* fail-over and the TCP retry repeat the stripped request: no later attempt shows an upstream more
+   than the first one did; and a query the edns layer refuses (EDNS version <> 0) never leaves *)
+Theorem failover_and_retry_repeat_the_stripped_request : forall b remote dnssec cd extra ups q1 q2,
+  In q1 (exit_forwarder b remote dnssec cd extra ups) -> In q2 (exit_forwarder b remote dnssec cd extra ups) ->
+  wq_extra q1 = wq_extra q2 /\ wq_cd q1 = wq_cd q2.
+Proof. exact exit_forwarder_retries_agree. Qed.
+Print Assumptions failover_and_retry_repeat_the_stripped_request.
+
+Theorem badvers_query_never_leaves : forall b remote dnssec cd extra ups o,
+  last_opt extra = Some o -> o_version o <> 0 -> exit_forwarder b remote dnssec cd extra ups = [].
+Proof. exact exit_badvers_nothing_leaves. Qed.
+Print Assumptions badvers_query_never_leaves.
+
+(* an upstream is asked only after every upstream configured before it failed to give a usable response *)
+Theorem upstream_asked_only_after_earlier_ones_failed : forall cdw extra ups i q,
+  In q (forwarder_sends cdw extra i ups) ->
+  i <= wq_server q /\ wq_server q < i + N.of_nat (length ups) /\
+  (forall k, (k < N.to_nat (wq_server q - i))%nat -> exists u, nth_error ups k = Some u /\ ub_final u <> 0).
+Proof. exact forwarder_sends_servers. Qed.
+Print Assumptions upstream_asked_only_after_earlier_ones_failed.
+
+(* whatever the upstreams answered (their echo of the subnet option included): no subnet option in
+   the reply the client gets *)
+Theorem no_ecs_to_client_through_the_forwarder : forall b remote extra n,
+  In n (exit_reply_counts b remote extra) -> n = 0.
+Proof. exact exit_reply_clean. Qed.
+Print Assumptions no_ecs_to_client_through_the_forwarder.
+
+Theorem exit_example_thm :
+  let b := mk_bargs true 0 0 0 0 [] in
+  let q := [ROpt (mk_optrr 0 [OEcs (mk_ecs 1 32 0 (mk_ipb 4 3405803853)); OOther 10])] in
+  let fw := [ROpt (mk_optrr 0 [OEcs (mk_ecs 1 24 0 (mk_ipb 4 3405803776))])] in
+  exit_forwarder b (mk_ipb 4 3325256711) false false q [1; 4; 0] =
+    [mk_wq 0 false true fw; mk_wq 1 false true fw; mk_wq 1 true true fw; mk_wq 2 false true fw] /\
+  exit_forwarder (mk_bargs false 0 0 0 0 []) (mk_ipb 4 3325256711) false false q [5; 3] =
+    [mk_wq 0 false true [ROpt (mk_optrr 0 [])]; mk_wq 0 true true [ROpt (mk_optrr 0 [])];
+     mk_wq 1 false true [ROpt (mk_optrr 0 [])]; mk_wq 1 true true [ROpt (mk_optrr 0 [])]] /\
+  exit_reply_counts b (mk_ipb 4 3325256711) q = [0].
+Proof. exact exit_example. Qed.
+Print Assumptions exit_example_thm.
